@@ -135,46 +135,66 @@ Proof.
 Qed.
 Print Assumptions C12_rejected_ops_unchanged.
 
-(** Bad releases are rejected without changing state, after any well-formed
-    history: an unknown tag; a token below the window (negative, or already
-    released and drained); a never-issued token above next; the never-issued
-    token next itself as long as something of the tag is outstanding. *)
-Theorem C12_bad_release_rejected_unchanged : forall cap ops t k, wf cap ops = true ->
-  let s := snd (run (sw_init cap) ops) in
-  (known s t = false \/ k < 0 \/ k < t_low (get s t) \/ t_next (get s t) < k \/
-   (k = t_next (get s t) /\ t_low (get s t) < t_next (get s t))) ->
+(** Bad releases are rejected without changing state, in ANY state: an
+    unknown tag; a token below the window (already released and drained); a
+    token at or above next (never issued) -- including k = next when
+    lowest = next, the edge repaired by commit 74b8319. *)
+Theorem C12_bad_release_rejected_unchanged : forall s t k,
+  (known s t = false \/ k < t_low (get s t) \/ t_next (get s t) <= k) ->
   sw_release s t k = (RValErr, s).
 Proof.
-  intros cap ops t k Hw. cbn zeta. rewrite <- (grun_is_run ops (sw_init cap) ghost0).
-  destruct (wf_inv cap ops Hw) as [_ Ht]. destruct (Ht t) as (H1 & _).
-  intros [H|H]; [now apply release_unknown_tag|]. apply release_outside_window; lia.
+  intros s t k [H|H]; [now apply release_unknown_tag|]. apply release_outside_window; lia.
 Qed.
 Print Assumptions C12_bad_release_rejected_unchanged.
 
-(** ... but NOT every never-issued token is rejected: when all issued tokens
-    of a tag have been released (lowest = next), release(tag, next) is
-    accepted by the code as it is (utils.py:731 tests only
-    [lowest == sequence_number]), and the count exceeds the capacity.
-    Witness: capacity 2; acquire a -> 0; release a 0; release a 1. *)
-Theorem C12_never_issued_rejected_refuted :
+(** Every token that was never handed out (never-issued, negative, or of a
+    tag never acquired) is rejected without changing state, after any
+    well-formed history. *)
+Theorem C12_never_issued_rejected_unchanged : forall cap ops t k, wf cap ops = true ->
+  let s := fst (grun (sw_init cap) ghost0 ops) in
+  let g := snd (grun (sw_init cap) ghost0 ops) in
+  s = snd (run (sw_init cap) ops) /\
+  (~ In (t, k) (g_granted g) -> sw_release s t k = (RValErr, s)).
+Proof.
+  intros cap ops t k Hw. cbn zeta. split; [apply grun_is_run|].
+  apply (release_never_granted_rejected _ _ t k (wf_inv cap ops Hw)).
+Qed.
+Print Assumptions C12_never_issued_rejected_unchanged.
+
+(** Record of finding F13: on the code before commit 74b8319
+    ([sw_release_old], first branch testing only lowest == sequence_number)
+    the statement above is false -- capacity 2; acquire a -> 0; release a 0;
+    release a 1 was accepted and the count exceeded the capacity -- while the
+    repaired code rejects the same call unchanged. *)
+Theorem C12_never_issued_unrepaired_refuted :
   exists cap ops t k,
     wf cap ops = true /\
     let s := fst (grun (sw_init cap) ghost0 ops) in
     let g := snd (grun (sw_init cap) ghost0 ops) in
     ~ In (t, k) (g_granted g) /\
-    fst (sw_release s t k) = ROk /\
-    sw_count (snd (sw_release s t k)) = cap + 1.
+    fst (sw_release_old s t k) = ROk /\
+    sw_count (snd (sw_release_old s t k)) = cap + 1 /\
+    sw_release s t k = (RValErr, s).
 Proof.
   exists 2, [OAcq 7 false; ORel 7 0], 7, 1. vm_compute.
-  split; [reflexivity|]. split; [|split; reflexivity]. intros [H|[]]. discriminate H.
+  split; [reflexivity|]. split; [|repeat split; reflexivity]. intros [H|[]]. discriminate H.
 Qed.
-Print Assumptions C12_never_issued_rejected_refuted.
+Print Assumptions C12_never_issued_unrepaired_refuted.
 
-(** The general form of that edge: any known tag, any state. *)
-Theorem C12_release_at_lowest_always_accepted : forall s t,
-  known s t = true -> fst (sw_release s t (t_low (get s t))) = ROk.
-Proof. intros s t H. now apply release_edge_accepted. Qed.
-Print Assumptions C12_release_at_lowest_always_accepted.
+(** ... in general the old code accepted release(tag, lowest) for every known
+    tag, also when lowest = next; the repaired code accepts it exactly when a
+    token is outstanding.  Any state. *)
+Theorem C12_release_at_lowest_old_vs_repaired : forall s t,
+  (known s t = true -> fst (sw_release_old s t (t_low (get s t))) = ROk) /\
+  (t_low (get s t) < t_next (get s t) -> fst (sw_release s t (t_low (get s t))) = ROk) /\
+  (t_next (get s t) <= t_low (get s t) -> sw_release s t (t_low (get s t)) = (RValErr, s)).
+Proof.
+  intros s t. split; [|split].
+  - intros H. now apply release_old_edge_accepted.
+  - apply release_lowest_accepted.
+  - intros H. apply release_outside_window. lia.
+Qed.
+Print Assumptions C12_release_at_lowest_old_vs_repaired.
 
 (** Quiescence: when every granted token has been released, the count is
     back at the capacity and nothing is pending. *)
@@ -243,7 +263,7 @@ Print Assumptions C12_waiter_has_waker.
     there takes it (returns the tag's next token) and leaves the blocked set.
     Any state. *)
 Theorem C12_release_of_lowest_wakes : forall c t,
-  known (c_sw c) t = true ->
+  t_low (get (c_sw c) t) < t_next (get (c_sw c) t) ->
   (forall tid tg, find_tid tid (c_wait c) = Some tg ->
      cstep c (LRel t (t_low (get (c_sw c) t)) (Some tid)) <> None) /\
   (c_wait c <> [] -> forall w c' o,
